@@ -271,9 +271,18 @@ def selection_rules(repo, rep):
     # containment: half-open on both axes against the sub-grid's own extents
     found = None
     for n in ast.walk(f.node):
-        if isinstance(n, ast.If) and isinstance(n.test, ast.BoolOp) and isinstance(n.test.op, ast.And) and len(n.test.values) == 2 \
-                and all(isinstance(v, ast.Compare) and len(v.ops) == 2 for v in n.test.values):
-            found = n
+        # the test of an if statement or the filter of a comprehension
+        t_ = n.test if isinstance(n, ast.If) else None
+        if isinstance(n, ast.comprehension) and len(n.ifs) == 1:
+            t_ = n.ifs[0]
+        if isinstance(t_, ast.BoolOp) and isinstance(t_.op, ast.And) and len(t_.values) == 2 \
+                and all(isinstance(v, ast.Compare) and len(v.ops) == 2 for v in t_.values):
+            class _T(object):
+                pass
+            found = _T()
+            found.test = t_
+            found.lineno = getattr(t_, 'lineno', f.node.lineno)
+            found.col_offset = 0
             break
     key = base + 'containment'
     if found is None:
@@ -308,10 +317,28 @@ def selection_rules(repo, rep):
         if isinstance(n, ast.If) and isinstance(n.test, ast.Compare) and len(n.test.ops) == 1 and isinstance(n.test.ops[0], ast.Lt) \
                 and 'lat_inc' in stmt_text(n.test.left):
             fin = n
+    mins = [n for n in ast.walk(f.node) if isinstance(n, ast.Call) and isinstance(n.func, ast.Name) and n.func.id == 'min'
+            and any(k.arg == 'key' and 'lat_inc' in stmt_text(k.value) for k in n.keywords)]
     if fin is not None:
-        rep.holds('R-GUARD', key, where(f, fin), 'among overlapping sub-grids the one with the smaller lat_inc replaces the current choice: %s' % stmt_text(fin.test))
+        # a running minimum: the branch that takes the finer candidate must lower the threshold it was compared with
+        thr = fin.test.comparators[0]
+        lowered = isinstance(thr, ast.Name) and any(isinstance(x, ast.Assign) and isinstance(x.targets[0], ast.Name) and x.targets[0].id == thr.id
+                                                      and stmt_text(x.value) == stmt_text(fin.test.left) for x in fin.body)
+        chosen = [x for x in fin.body if isinstance(x, ast.Assign) and isinstance(x.targets[0], ast.Name) and not (isinstance(thr, ast.Name) and x.targets[0].id == thr.id)]
+        if not isinstance(thr, ast.Name):
+            rep.undecided('R-GUARD', key, where(f, fin), 'the spacing comparison is not against a running threshold: %s' % stmt_text(fin.test))
+        elif lowered and chosen:
+            rep.holds('R-GUARD', key, where(f, fin), 'among overlapping sub-grids the one with the smaller lat_inc replaces the current choice and lowers the threshold: %s' % stmt_text(fin.test))
+        elif not lowered:
+            rep.violated('R-GUARD', key, where(f, fin), 'a finer sub-grid replaces the current choice but the threshold `%s` it was compared with is not lowered to its spacing: a later candidate '
+                         'that is coarser than the chosen one (but finer than the first) replaces it - not the finest sub-grid wins' % thr.id,
+                         expected='%s = %s inside the branch' % (thr.id, stmt_text(fin.test.left)), actual='; '.join(stmt_text(x) for x in fin.body)[:160])
+        else:
+            rep.violated('R-GUARD', key, where(f, fin), 'the finer candidate lowers the threshold but is not taken as the choice', actual='; '.join(stmt_text(x) for x in fin.body)[:160])
+    elif mins:
+        rep.holds('R-GUARD', key, where(f, mins[0]), 'the sub-grid of minimal lat_inc among the containing ones is chosen: %s' % stmt_text(mins[0])[:100])
     else:
-        rep.violated('R-GUARD', key, w, 'no "smaller lat_inc wins" comparison among the containing sub-grids', expected='if candidate.lat_inc < inc', actual='absent')
+        rep.undecided('R-GUARD', key, w, 'no "smaller lat_inc wins" selection recognised among the containing sub-grids')
     # arguments handed to the interpolators
     calls = [n for n in ast.walk(f.node) if isinstance(n, ast.Call) and isinstance(n.func, ast.Attribute) and n.func.attr in ('ntv2_bilinear', 'ntv2_bicubic')]
     if len(calls) != 2:
